@@ -2208,7 +2208,12 @@ func (x *Exec) scanCallWrites(info *types.Info, call *ast.CallExpr, ws *writeSet
 	}
 	ws.absorb(sub)
 	// a pointer-receiver method called on an addressable local writes that local
-	if sel, ok := call.Fun.(*ast.SelectorExpr); ok {
+	// (a value-receiver method gets a copy and cannot)
+	ptrRecv := false
+	if sg, ok := fn.Type().(*types.Signature); ok && sg.Recv() != nil {
+		_, ptrRecv = sg.Recv().Type().Underlying().(*types.Pointer)
+	}
+	if sel, ok := call.Fun.(*ast.SelectorExpr); ok && ptrRecv {
 		if id := rootIdent(sel.X); id != nil {
 			if o := info.Uses[id]; o != nil {
 				if _, isPtr := o.Type().Underlying().(*types.Pointer); !isPtr {
